@@ -45,7 +45,7 @@
 (***************************************************************************)
 EXTENDS CbRule, GoSlice
 
-CONSTANTS Shape,       \* "par2" | "par3" | "seq" | "nest" | "nestdup" | "sbr" | "nsbr"
+CONSTANTS Shape,       \* "par2" | "par3" | "seq" | "nest" | "nestdup" | "sbr" | "nsbr" | "tools"
           MaxGlobal,   \* 0..MaxGlobal global handlers
           MaxUndes,    \* total number of undesignated handlers
           MaxOpts,     \* ... split over at most MaxOpts WithCallbacks options of 1 or 2 handlers
@@ -53,7 +53,8 @@ CONSTANTS Shape,       \* "par2" | "par3" | "seq" | "nest" | "nestdup" | "sbr" |
           Multi,       \* admit designated options with two paths
           AllowFail,   \* admit one failing leaf
           CopyFix, Gen,
-          LateFlag     \* seeded variant of runner.run: `haveOnStart = true` only after the fresh-start block (see EndR)
+          LateFlag,    \* seeded variant of runner.run: `haveOnStart = true` only after the fresh-start block (see EndR)
+          NoRebind     \* seeded variant of manager.withRunInfo: a manager without per-call handlers is returned unchanged (see ToolInit)
 
 \* ------------------------------------------------------------------ unit tables
 U(id, path, graph, parent, src, srcin, pred) ==
@@ -73,6 +74,13 @@ UnitSeq ==
     \* runs that can end INSIDE the initial START step of runner.run: a branch on START with the targets {the leaf, END}
     \* ("sbr": in the top graph; "nsbr": in a nested graph that is the only node of the top graph); see `bsel` below
     [] Shape = "sbr"  -> <<Top, Leaf("a", "a", "")>>
+    \* a ToolsNode executing two tool calls in parallel: each tool call is an execution unit of its own (component Tool, run info =
+    \* the tool's name / type), whose context is made by callbacks.ReuseHandlers from the ToolsNode's context (compose/tool_node.go:221-243).
+    \* For the rule the ToolsNode is a composite unit like a nested graph (graph = TRUE: it ran / failed iff a tool call did; its own
+    \* payload is not compared); tool calls cannot be designated (their pseudo path only says they are inside "tn").
+    [] Shape = "tools" -> <<Top, [U("tn", <<"tn">>, TRUE, "top", "top", TRUE, "") EXCEPT !.comp = "ToolsNode"],
+                            [U("t1", <<"tn", "#t1">>, FALSE, "tn", "top", TRUE, "") EXCEPT !.comp = "Tool"],
+                            [U("t2", <<"tn", "#t2">>, FALSE, "tn", "top", TRUE, "") EXCEPT !.comp = "Tool"]>>
     [] Shape = "nsbr" -> <<Top, U("sub", <<"sub">>, TRUE, "top", "top", TRUE, ""), U("s1", <<"sub", "s1">>, FALSE, "sub", "top", TRUE, "")>>
 UnitSet == Range(UnitSeq)
 Ids == {u.u : u \in UnitSet}
@@ -89,7 +97,8 @@ OutOf(id) == IF id = "top" THEN "R" ELSE id \o "(" \o InOf(id) \o ")"
 RECURSIVE Sum(_)
 Sum(s) == IF s = <<>> THEN 0 ELSE Head(s) + Sum(Tail(s))
 Splits == {s \in UNION {[1..k -> 1..2] : k \in 0..MaxOpts} : Sum(s) <= MaxUndes}
-DPaths == {u.path : u \in {x \in UnitSet : x.parent # ""}}
+IsToolCall(id) == id \in {"t1", "t2"} /\ Shape = "tools"
+DPaths == {u.path : u \in {x \in UnitSet : x.parent # "" /\ ~IsToolCall(x.u)}}
 POrd(p) == CHOOSE i \in 1..Len(UnitSeq) : UnitSeq[i].path = p
 \* one option may designate two paths, in EITHER order (extractOption walks opt.paths in order: a top-level path in front of a nested
 \* one and the reverse are different executions of that loop)
@@ -97,7 +106,7 @@ POrd(p) == CHOOSE i \in 1..Len(UnitSeq) : UnitSeq[i].path = p
 \* and appended again for the inner node, so it fires twice there; whether that is wanted is not decided by the statement).
 DTargets == {<<p>> : p \in DPaths} \cup (IF Multi THEN {pq \in DPaths \X DPaths : ~IsPrefix(pq[1], pq[2]) /\ ~IsPrefix(pq[2], pq[1])} ELSE {})
 DSeqs == UNION {[1..k -> DTargets] : k \in 0..MaxDOpts}
-FailSet == {"none"} \cup (IF AllowFail THEN (IF Shape \in {"nest", "nestdup"} THEN {"a", "s1"} ELSE IF Shape = "nsbr" THEN {"s1"} ELSE {"a"}) ELSE {})
+FailSet == {"none"} \cup (IF AllowFail THEN (IF Shape \in {"nest", "nestdup"} THEN {"a", "s1"} ELSE IF Shape = "nsbr" THEN {"s1"} ELSE IF Shape = "tools" THEN {"t1"} ELSE {"a"}) ELSE {})
 \* what the branch on START does:  node = selects the leaf (ordinary run) | end = selects END directly (the result is there after
 \* the START step) | fail = the condition returns an error | int = the selected leaf is an interrupt-before node (checkpoint store
 \* present): runner.run returns from inside the fresh-start block in the last three cases
@@ -129,7 +138,8 @@ CaseLine(c) ==
 VARIABLES cfg, heap, na, mgr, lst, pc, S, sched
 vars == <<cfg, heap, na, mgr, lst, pc, S, sched>>
 
-NoMgr == [on |-> FALSE, hs |-> NilSlice, gl |-> <<>>]
+\* ri = the unit whose RunInfo the manager carries (manager.runInfo)
+NoMgr == [on |-> FALSE, hs |-> NilSlice, gl |-> <<>>, ri |-> ""]
 NoLst == [s |-> NilSlice, ext |-> <<>>]
 
 Init ==
@@ -143,7 +153,7 @@ Init ==
 
 \* ------------------------------------------------------------------ the library, as coded
 \* InitCallbacks(ctx, info, hs...): newManager keeps hs and copies the global list; no manager when both are empty
-InitCallbacks(hs) == IF hs.len + cfg.ng = 0 THEN NoMgr ELSE [on |-> TRUE, hs |-> hs, gl |-> Globals(cfg)]
+InitCallbacks(hs) == IF hs.len + cfg.ng = 0 THEN NoMgr ELSE [on |-> TRUE, hs |-> hs, gl |-> Globals(cfg), ri |-> ""]
 
 \* initGraphCallbacks / initNodeCallbacks followed by AppendHandlers(ctx, info, cbs...):
 \*   var cbs []Handler; for each matching option: cbs = append(cbs, opt.handler...)
@@ -161,7 +171,8 @@ EarlyErr == BranchGraph # "none" /\ cfg.bsel \in {"fail", "int"}
 Failing(id) == IF UR(id).graph THEN (id = "top" /\ (cfg.fail # "none" \/ EarlyErr)) \/ cfg.fail \in Children(id) \/ (Early(id) /\ EarlyErr)
                ELSE cfg.fail = id
 EndTiming(id) == IF Failing(id) THEN "error" ELSE "end"
-Ev(h, t, id) == [ev |-> "cb", h |-> h, t |-> t, name |-> UR(id).name, comp |-> UR(id).comp, typ |-> UR(id).typ,
+\* the run info a handler is given is the one stored in the manager of the unit's context
+Ev(h, t, id) == [ev |-> "cb", h |-> h, t |-> t, name |-> UR(mgr[id].ri).name, comp |-> UR(mgr[id].ri).comp, typ |-> UR(mgr[id].ri).typ,
                  pl |-> IF t = "start" THEN InOf(id) ELSE IF t = "error" THEN "err" ELSE OutOf(id), strm |-> FALSE]
 Rev(s) == [i \in 1..Len(s) |-> s[Len(s) + 1 - i]]
 
@@ -181,16 +192,26 @@ Rec(id, step) == sched' = IF Gen /\ id # "top" THEN Append(sched, <<id, step>>) 
 GInit ==
   /\ pc["top"] = "ginit"
   /\ LET r == AppendHandlers(NoMgr, UChunks(cfg.split, 1)) IN
-       /\ heap' = r.h /\ na' = r.na /\ mgr' = [mgr EXCEPT !["top"] = r.m]
+       /\ heap' = r.h /\ na' = r.na /\ mgr' = [mgr EXCEPT !["top"] = [r.m EXCEPT !.ri = "top"]]
   /\ pc' = [pc EXCEPT !["top"] = "startW"]
   /\ UNCHANGED <<cfg, lst, S, sched>>
 
 NodeInit(id) ==
-  /\ CanInit(id)
+  /\ CanInit(id) /\ ~IsToolCall(id)
   /\ LET r == AppendHandlers(mgr[UR(id).parent], DChunks(cfg, id)) IN
-       /\ heap' = r.h /\ na' = r.na /\ mgr' = [mgr EXCEPT ![id] = r.m]
+       /\ heap' = r.h /\ na' = r.na /\ mgr' = [mgr EXCEPT ![id] = [r.m EXCEPT !.ri = id]]
   /\ pc' = [pc EXCEPT ![id] = "startW"]
   /\ UNCHANGED <<cfg, lst, S, sched>>
+
+\* a tool call: ctx = callbacks.ReuseHandlers(ctx, &RunInfo{tool name, type, Tool}) = the ToolsNode's manager .withRunInfo(info):
+\* same handler slice header, same global list, new run info; no manager -> none.
+\* NoRebind (seeded variant): `if m == nil || len(m.handlers) == 0 { return m }` -- with global handlers only the run info stays the ToolsNode's.
+ToolInit(id) ==
+  /\ CanInit(id) /\ IsToolCall(id)
+  /\ LET pm == mgr[UR(id).parent] IN
+       mgr' = [mgr EXCEPT ![id] = IF ~pm.on THEN NoMgr ELSE IF NoRebind /\ pm.hs.len = 0 THEN pm ELSE [pm EXCEPT !.ri = id]]
+  /\ pc' = [pc EXCEPT ![id] = "startW"]
+  /\ UNCHANGED <<cfg, heap, na, lst, S, sched>>
 
 \* the append of On:  for _, handler := range append(mgr.handlers, mgr.globalHandlers...)
 OnW(id, from, to) ==
@@ -236,7 +257,7 @@ Finish ==
   /\ pc' = [pc EXCEPT !["top"] = "fin"]
   /\ UNCHANGED <<cfg, heap, na, mgr, lst, sched>>
 
-Next == GInit \/ Finish \/ \E id \in Ids : NodeInit(id) \/ StartW(id) \/ StartR(id) \/ EndW(id) \/ EndR(id)
+Next == GInit \/ Finish \/ \E id \in Ids : NodeInit(id) \/ ToolInit(id) \/ StartW(id) \/ StartR(id) \/ EndW(id) \/ EndR(id)
 Spec == Init /\ [][Next]_vars
 
 \* ------------------------------------------------------------------ what TLC checks
